@@ -1417,6 +1417,7 @@ class ErtmSeqModel:
         self.victim_req = 0          # last ReqSeq received from the victim
         self.undefined = None        # why the rest of this channel's life is not judged (SAR sequence of hostile frames)
         self.hostile_sdus = 0        # complete SDUs hostile in-sequence I-frames delivered
+        self.doubtful = 0            # in-sequence I-frames with an invalid ReqSeq since the last poll (taken or dropped)
 
     def outstanding(self) -> int:
         return (self.rx_expected - self.acked) % 64
@@ -1424,8 +1425,9 @@ class ErtmSeqModel:
     def req_valid(self, req: int) -> bool:
         return (req - self.acked) % 64 <= self.outstanding()
 
-    def note_sent(self, pdu: bytes) -> str:
-        """Account for one PDU the peer sends; returns its class relative to the true state."""
+    def note_sent(self, pdu: bytes, own: bool = False) -> str:
+        """Account for one PDU the peer sends; returns its class relative to the true state. own: a frame of the
+        well-formed traffic (its segmentation is correct by construction)."""
         f = ertm_parse(pdu)
         if f is None:
             return 'shorter-than-control-field'
@@ -1445,14 +1447,16 @@ class ErtmSeqModel:
         if f['tx'] != self.my_tx:
             return f'i-out-of-sequence/{rk}'
         self.my_tx = (self.my_tx + 1) % 64
-        if f['sar'] != 0:
+        if own:
+            pass
+        elif f['sar'] != 0:
             self.undefined = 'hostile in-sequence I-frame with a SAR field other than unsegmented'
         elif len(f['payload']) > self.mps:
             self.undefined = 'hostile in-sequence I-frame larger than the MPS'
         elif not valid:
             # (a receiver may take the data of a frame whose acknowledgment it refuses, or drop the frame: the
             # peer learns which from the answer to its next poll)
-            pass
+            self.doubtful += 1
         else:
             self.hostile_sdus += 1
         return f'i-in-sequence/{rk}'
@@ -1508,8 +1512,8 @@ def ertm_label(sc: bytes, window: int, primed: int) -> str:
         rk = 'reqseq-ahead-within-window'
     else:
         rk = 'reqseq-ahead-beyond-window'
-    if kind == ERTM_KIND_I and tx_off:
-        rk += '+txseq-ahead' if tx_off < 32 else '+txseq-behind'
+    if kind == ERTM_KIND_I and tx_off and req_off == 0:
+        rk = 'txseq-ahead' if tx_off < 32 else 'txseq-behind'
     if rsv:
         rk += '+reserved-bits'
     return f'{t}-{rk}'
@@ -1533,7 +1537,7 @@ def ertm_enum_scripts():
 
 # ---- RFCOMM: what a hand-written responder does at each step of the victim's open_dlc() ------------------------
 # (RFCOMM 1.2 / TS 07.10 5.2.1.2, 5.4.6.3.1: PN command/response, SABM answered UA or DM, MSC after the UA)
-RFCOMM_PN_STEPS = ('accept', 'accept-small-frame', 'accept-no-credits', 'accept-other-dlci', 'accept-twice', 'refuse-dm',
+RFCOMM_PN_STEPS = ('accept', 'accept-small-frame', 'accept-no-credits', 'accept-other-dlci', 'accept-dlci-0', 'accept-twice', 'refuse-dm',
                    'silent', 'dm-other-dlci-then-accept', 'ua-then-accept', 'nsc-then-accept', 'pn-command-back-then-accept')
 RFCOMM_SABM_STEPS = ('ua', 'dm', 'silent', 'dm-other-dlci-then-ua', 'ua-other-dlci-then-ua', 'ua-twice', 'dm-dlci0',
                      'disc', 'ua-wrong-cr')
@@ -1550,12 +1554,13 @@ def rfcomm_open_script_name(sc: bytes) -> str:
 
 
 def rfcomm_open_label(sc: bytes) -> str:
-    """Mechanism class: the first step that is not the plain one."""
+    """Mechanism class: the step that decides - the answer to the SABM when there is an SABM and it is not a plain UA,
+    else the answer to the PN when it is not a plain acceptance, else the MSC variant (the whole script is in the detail)."""
     pn, sabm, msc = RFCOMM_PN_STEPS[sc[0]], RFCOMM_SABM_STEPS[sc[1]], RFCOMM_MSC_STEPS[sc[2]]
-    if pn in ('refuse-dm', 'silent'):
+    if pn in ('refuse-dm', 'silent', 'accept-dlci-0'):
         return f'pn-{pn}'
     if sabm != 'ua':
-        return (f'pn-{pn}+' if pn != 'accept' else '') + f'sabm-{sabm}'
+        return f'sabm-{sabm}'
     if pn != 'accept':
         return f'pn-{pn}'
     return f'msc-{msc}' if msc != 'command-and-response' else 'plain-open'
@@ -1565,8 +1570,8 @@ def rfcomm_open_enum_scripts():
     out = []
     for pn in RFCOMM_PN_STEPS:
         for sabm in RFCOMM_SABM_STEPS:
-            if pn in ('refuse-dm', 'silent') and sabm != 'ua':
-                continue        # (no SABM follows)
+            if pn in ('refuse-dm', 'silent', 'accept-dlci-0') and sabm != 'ua':
+                continue        # (no SABM for a DLC follows)
             out.append(rfcomm_open_script(pn, sabm, 'command-and-response'))
     for msc in RFCOMM_MSC_STEPS[1:]:
         out.append(rfcomm_open_script('accept', 'ua', msc))
